@@ -403,10 +403,16 @@ CLAIMED["C09"] = {
     "note": "NOT decided: that the pool is distributed as the prior "
     "restricted to the contour (a statement about probability measures; no "
     "contract here expresses it), the radially truncated latent samplers "
-    "(numerics), FlowProposal.populate itself (ASSUMED to fill exactly N "
-    "rows satisfying the pool invariant: its rejection loop is not under "
-    "contract), the augmented / GW / clustering proposals, "
-    "ImportanceNestedSampler.populate_live_points.",
+    "(numerics), log-q truncation and the x-prime-prior mode of "
+    "FlowProposal.populate, the augmented / GW / clustering proposals, "
+    "ImportanceNestedSampler.populate_live_points. FlowProposal.populate "
+    "itself IS under contract (rejection loop with loop invariants, both "
+    "the per-batch and the accumulate-weights mode): exactly N in-bounds "
+    "rows with the model's prior and likelihood and a permutation as index "
+    "list -- except that the accumulate-weights mode may return fewer rows "
+    "when the documented max_samples escape hatch ends the loop (stated in "
+    "the postcondition). Quick tier: radius handed in, no plotting flags "
+    "(quick_requires); thorough tier: every flag combination.",
 }
 
 NA = {
